@@ -498,6 +498,16 @@ def good(x, scale=1.0, names=("a", "b"), opt=None):
     local = {}
     local["k"] = x
     return local
+def bad_inplace(self, y, b):
+    y -= b
+    return y
+def good_inplace(self, y, b, n: int = 0):
+    n += 1
+    y = jnp.asarray(y)
+    y -= b
+    z = y - b
+    z += 1
+    return z
 '''
 _MEMO = ("lru_cache", "cache", "cached_property", "memoize")
 
@@ -560,6 +570,22 @@ def _hidden_state_sites(tree, relpath, qual, module_names, array_call=lambda c: 
                     out.append(f"{relpath}:{d.lineno} in {qual(d.lineno)}: mutable default argument `{nm}={ast.unparse(d)}` {hit}: the one object is shared between calls")
         if not isinstance(fn, ast.FunctionDef):
             continue
+        # in-place operators on an argument: `y -= b` / `y[i] = v` rebinds nothing for a NumPy array - the caller's data are overwritten
+        # (jax arrays are immutable, so the same line is harmless for them: the library accepts both)
+        prms = {x.arg: x for x in fn.args.posonlyargs + fn.args.args + fn.args.kwonlyargs if x.arg not in ("self", "cls")}
+        for n in sorted((m for m in ast.walk(fn) if isinstance(m, (ast.Assign, ast.AugAssign))), key=lambda m: (m.lineno, m.col_offset)):
+            for t in (n.targets if isinstance(n, ast.Assign) else [n.target]):
+                base = t.value if isinstance(t, ast.Subscript) else t
+                if not (isinstance(base, ast.Name) and base.id in prms):
+                    continue
+                if isinstance(n, ast.Assign) and isinstance(t, ast.Name):
+                    prms.pop(base.id)       # rebound to a new object: later in-place operators act on the copy
+                    continue
+                ann = prms[base.id].annotation
+                if ann is not None and ast.unparse(ann) in ("int", "float", "bool", "str", "complex"):
+                    continue
+                out.append(f"{relpath}:{n.lineno} in {qual(n.lineno)}: `{ast.unparse(n)[:50]}` updates the argument `{base.id}` in place - a NumPy array passed by the "
+                           "caller is overwritten (operands must be left unchanged; a second call with the same array sees different data)")
         for dec in fn.decorator_list:
             name = ast.unparse(dec.func if isinstance(dec, ast.Call) else dec).split(".")[-1]
             args0 = [x.arg for x in fn.args.posonlyargs + fn.args.args][:1]
@@ -608,8 +634,8 @@ def hidden_state_ob(prog, group):
         names = module_containers(t)
         got = _hidden_state_sites(t, "synthetic", lambda l: next((f.name for f in t.body if isinstance(f, ast.FunctionDef) and f.lineno <= l <= f.end_lineno), ""), names,
                                   lambda c: ast.unparse(c.func).startswith("jnp."))
-        if len(got) != 4 or any("good" in g for g in got):
-            raise Undecided(f"hidden-state rule: synthetic examples give {len(got)} sites (expected 4)")
+        if len(got) != 5 or any("good" in g for g in got):
+            raise Undecided(f"hidden-state rule: synthetic examples give {len(got)} sites (expected 5)")
         bad, nfun = [], 0
         for mod, tree in prog.modules.items():
             nfun += sum(1 for n in ast.walk(tree) if isinstance(n, ast.FunctionDef))
